@@ -1,7 +1,8 @@
 (* C17: proofs about the Condition / Event programs (Model/CondProg.v) under the
    interleaving semantics of Model/SemProg.v. *)
 From Coq Require Import ZArith List Bool Lia ZifyBool Arith.
-From BV Require Import Model.SemProg Model.CondProg Gen.P_cond.
+From BV Require Import Model.SemProg Model.CondProg Proofs.SemProgProofs.
+From BV Require Gen.P_cond.
 Import ListNotations.
 Open Scope Z_scope.
 
@@ -19,3 +20,351 @@ Lemma gen_ctors_eq :
   P_cond.ctor_Condition_default = CondProg.ctor_Condition_default /\
   P_cond.ctor_Event = CondProg.ctor_Event.
 Proof. repeat split; reflexivity. Qed.
+
+
+(* ================================================================== invariant *)
+
+Notation code := CondProg.code.
+Local Open Scope nat_scope.
+
+(* ------------------------------------------------------------------ weights by (call, pc, registers) *)
+(* holds the condition's lock *)
+Definition w_hl (c p : nat) : Z :=
+  match c, p with
+  | 0, (2|6|17) => 1%Z
+  | 1, (2|4|6|9|11|12|13|14) => 1%Z
+  | 2, (2|4|6|10|12|18|21|24) => 1%Z
+  | 3, (1|3|4|7) => 1%Z
+  | 4, (1|2|4|6|8|12|14|20|23|26) => 1%Z
+  | 5, (1|2) => 1%Z
+  | 6, (1|3|6|10|21|23|24|27) => 1%Z
+  | _, _ => 0%Z
+  end.
+(* in the wait window: announced (S released), not yet acknowledged (W released) *)
+Definition w_win (c p : nat) : Z :=
+  match c, p with
+  | 0, (6|9|10) => 1%Z
+  | 6, (10|13|14) => 1%Z
+  | _, _ => 0%Z
+  end.
+(* sleepers grabbed from S whose acknowledgement has not been collected from W *)
+Definition w_pend (c p : nat) (r : regs) : Z :=
+  match c, p with
+  | 1, 6 => (-1)%Z
+  | 1, (11|12) => 1%Z
+  | 2, 6 => (-1)%Z
+  | 2, 10 => r3 r
+  | 2, 12 => (r3 r + 1)%Z
+  | 2, 18 => (r3 r - r4 r)%Z
+  | 4, 8 => (-1)%Z
+  | 4, 12 => r3 r
+  | 4, 14 => (r3 r + 1)%Z
+  | 4, 20 => (r3 r - r4 r)%Z
+  | _, _ => 0%Z
+  end.
+(* tokens this notifier may still have outstanding in the wait semaphore *)
+Definition w_ntok (c p : nat) (r : regs) : Z :=
+  match c, p with
+  | 1, (12|13) => 1%Z
+  | 2, (10|12|18|21) => r3 r
+  | 4, (12|14|20|23) => r3 r
+  | _, _ => 0%Z
+  end.
+(* has taken the event flag and will put it back / set it *)
+Definition w_fh (c p : nat) : Z :=
+  match c, p with
+  | 3, 3 => 1%Z
+  | 4, 2 => 1%Z
+  | 6, (3|23) => 1%Z
+  | _, _ => 0%Z
+  end.
+(* a notify_all past its grabbing loop: the sleeping count is zero *)
+Definition w_sz (c p : nat) : Z :=
+  match c, p with
+  | 2, (18|21|24) => 1%Z
+  | 4, (20|23|26) => 1%Z
+  | _, _ => 0%Z
+  end.
+Local Close Scope nat_scope.
+
+Definition t_hl (t : thread) : Z := if fin t then 0 else w_hl (cid t) (pc t).
+Definition t_win (t : thread) : Z := if fin t then 0 else w_win (cid t) (pc t).
+Definition t_pend (t : thread) : Z := if fin t then 0 else w_pend (cid t) (pc t) (rg t).
+Definition t_ntok (t : thread) : Z := if fin t then 0 else w_ntok (cid t) (pc t) (rg t).
+Definition t_fh (t : thread) : Z := if fin t then 0 else w_fh (cid t) (pc t).
+Definition t_sz (t : thread) : Z := if fin t then 0 else w_sz (cid t) (pc t).
+
+(* ------------------------------------------------------------------ per-thread invariant *)
+Definition okcall (c : call) : Prop := (fst (fst c) <= 14)%nat.
+
+(* results of finished calls: wait returns a boolean, True when untimed; notify, notify_all,
+   set, clear return None (no exception); is_set and Event.wait return a boolean *)
+Definition okres (x : call * Z) : Prop :=
+  let '((c, a0, _), v) := x in
+  match c with
+  | 0%nat => (v = 0 \/ v = 1) /\ (a0 = 0 -> v = 1)
+  | 1%nat | 2%nat | 4%nat | 5%nat => v = V_NONE
+  | 3%nat | 6%nat => v = 0 \/ v = 1
+  | _ => True
+  end.
+
+Definition res2 (r : regs) : Prop := (r2 r = 0 \/ r2 r = 1) /\ (r0 r = 0 -> r2 r = 1).
+
+Local Open Scope nat_scope.
+Definition li_pc (c p : nat) (r : regs) (h : Z) : Prop :=
+  match c, p with
+  | 0, 0 => h = 0%Z
+  | 0, 2 => h = 1%Z
+  | 0, 6 => h = 1%Z /\ r3 r = 1%Z /\ r4 r = 0%Z
+  | 0, 9 => h = 0%Z /\ r3 r = 1%Z
+  | 0, 10 => h = 0%Z /\ r3 r = 1%Z /\ res2 r
+  | 0, 13 => h = 0%Z /\ r3 r = 1%Z /\ r4 r = 0%Z /\ res2 r
+  | 0, 17 => h = 1%Z /\ res2 r
+  | 1, 0 => h = 0%Z
+  | 1, (2|4|6|9|11|12|13|14) => h = 1%Z
+  | 2, 0 => h = 0%Z
+  | 2, (2|4|6|24) => h = 1%Z
+  | 2, (10|12|21) => h = 1%Z /\ (0 <= r3 r)%Z
+  | 2, 18 => h = 1%Z /\ (0 <= r4 r < r3 r)%Z
+  | 3, 0 => h = 0%Z
+  | 3, (1|3|4|7) => h = 1%Z
+  | 4, 0 => h = 0%Z
+  | 4, (1|2|4|6|8|26) => h = 1%Z
+  | 4, (12|14|23) => h = 1%Z /\ (0 <= r3 r)%Z
+  | 4, 20 => h = 1%Z /\ (0 <= r4 r < r3 r)%Z
+  | 5, 0 => h = 0%Z
+  | 5, (1|2) => h = 1%Z
+  | 6, 0 => h = 0%Z
+  | 6, (1|3|6|21|23|24|27) => h = 1%Z
+  | 6, 10 => h = 1%Z /\ r3 r = 1%Z /\ r4 r = 0%Z
+  | 6, (13|14) => h = 0%Z /\ r3 r = 1%Z
+  | 6, 17 => h = 0%Z /\ r3 r = 1%Z /\ r4 r = 0%Z
+  | (7|8|9|10|11|12|13|14), 0 => h = 0%Z
+  | _, _ => False
+  end.
+Local Close Scope nat_scope.
+
+Definition LI (t : thread) : Prop :=
+  Forall okcall (script t) /\ Forall okres (results t) /\
+  if fin t then nth 0 (held t) 0 = 0
+  else r0 (rg t) = snd (fst (cur t)) /\ li_pc (cid t) (pc t) (rg t) (nth 0 (held t) 0).
+
+(* ------------------------------------------------------------------ global invariant *)
+Definition SVM : Z := 2147483647.
+Definition vv (s : nat) (g : sys) : Z := val (nth s (sems g) dsem).
+
+Definition shape (ss : list sem) : Prop :=
+  maxv (nth 0 ss dsem) = 1 /\
+  (forall s, (1 <= s <= 4)%nat -> recur (nth s ss dsem) = false /\ maxv (nth s ss dsem) = SVM).
+
+Record Inv (g : sys) : Prop := mkInv {
+  i_shape : shape (sems g);
+  i_li : forall t, In t (thr g) -> LI t;
+  i_lock : vv 0 g + sumz t_hl (thr g) = 1;
+  i_lock0 : 0 <= vv 0 g;
+  i_count : vv 1 g - vv 2 g + sumz t_pend (thr g) = sumz t_win (thr g);
+  i_s0 : 0 <= vv 1 g;
+  i_w0 : 0 <= vv 2 g;
+  i_tok : 0 <= vv 3 g <= sumz t_ntok (thr g);
+  i_flag : 0 <= vv 4 g /\ vv 4 g + sumz t_fh (thr g) <= 1;
+  i_sz : 0 < sumz t_sz (thr g) -> vv 1 g = 0
+}.
+
+(* the counters stay below SEM_VALUE_MAX (otherwise release raises ValueError) *)
+Definition small (g : sys) : Prop := vv 1 g < SVM /\ vv 2 g < SVM /\ vv 3 g < SVM.
+
+Ltac dn x n := match n with O => idtac | S ?m => destruct x as [|x]; [|dn x m] end.
+
+Lemma w_hl_01 : forall c p, 0 <= w_hl c p <= 1.
+Proof. intros c p. dn c 16%nat; dn p 28%nat; cbn; lia. Qed.
+Lemma w_win_01 : forall c p, 0 <= w_win c p <= 1.
+Proof. intros c p. dn c 16%nat; dn p 28%nat; cbn; lia. Qed.
+Lemma w_fh_01 : forall c p, 0 <= w_fh c p <= 1.
+Proof. intros c p. dn c 16%nat; dn p 28%nat; cbn; lia. Qed.
+Lemma w_sz_01 : forall c p, 0 <= w_sz c p <= 1.
+Proof. intros c p. dn c 16%nat; dn p 28%nat; cbn; lia. Qed.
+
+Lemma w_excl : forall c p r, w_hl c p <= 0 ->
+    w_pend c p r = 0 /\ w_ntok c p r = 0 /\ w_fh c p = 0 /\ w_sz c p = 0.
+Proof. intros c p r. dn c 16%nat; dn p 28%nat; cbn; intros; repeat split; lia. Qed.
+
+Lemma t_hl_01 : forall t, 0 <= t_hl t <= 1.
+Proof. intros t. unfold t_hl. destruct (fin t); [lia|apply w_hl_01]. Qed.
+Lemma t_win_01 : forall t, 0 <= t_win t <= 1.
+Proof. intros t. unfold t_win. destruct (fin t); [lia|apply w_win_01]. Qed.
+Lemma t_fh_01 : forall t, 0 <= t_fh t <= 1.
+Proof. intros t. unfold t_fh. destruct (fin t); [lia|apply w_fh_01]. Qed.
+Lemma t_sz_01 : forall t, 0 <= t_sz t <= 1.
+Proof. intros t. unfold t_sz. destruct (fin t); [lia|apply w_sz_01]. Qed.
+
+Lemma t_excl : forall t, t_hl t <= 0 ->
+    t_pend t = 0 /\ t_ntok t = 0 /\ t_fh t = 0 /\ t_sz t = 0.
+Proof.
+  intros t. unfold t_hl, t_pend, t_ntok, t_fh, t_sz. destruct (fin t); [auto|apply w_excl].
+Qed.
+
+(* a thread starting a call stands at pc 0 with all weights 0 *)
+Lemma start_cons : forall c a0 a1 sc h res, (c <= 14)%nat ->
+    start code h res ((c, a0, a1) :: sc) = mkT (c, a0, a1) 0 (init_regs a0 a1) h sc res false.
+Proof.
+  intros c a0 a1 sc h res Hc. dn c 15%nat; try reflexivity. lia.
+Qed.
+
+Lemma w_at0 : forall c r, (c <= 14)%nat ->
+    w_hl c 0 = 0 /\ w_win c 0 = 0 /\ w_pend c 0 r = 0 /\ w_ntok c 0 r = 0 /\ w_fh c 0 = 0 /\ w_sz c 0 = 0.
+Proof. intros c r Hc. dn c 15%nat; cbn; repeat split; lia. Qed.
+
+Lemma li_at0 : forall c r, (c <= 14)%nat -> li_pc c 0 r 0.
+Proof. intros c r Hc. dn c 15%nat; cbn; auto. lia. Qed.
+
+Lemma start_facts : forall sc h res,
+    Forall okcall sc -> Forall okres res -> nth 0 h 0 = 0 ->
+    let t := start code h res sc in
+    LI t /\ t_hl t = 0 /\ t_win t = 0 /\ t_pend t = 0 /\ t_ntok t = 0 /\ t_fh t = 0 /\ t_sz t = 0.
+Proof.
+  intros [|[[c a0] a1] sc] h res Hsc Hres Hh.
+  - cbn. unfold LI; cbn. repeat split; auto.
+  - inversion Hsc as [|x l Hc Hsc']; subst. unfold okcall in Hc; cbn in Hc.
+    rewrite start_cons by auto.
+    destruct (w_at0 c (init_regs a0 a1) Hc) as (A & B & C & D & E & F).
+    unfold LI, t_hl, t_win, t_pend, t_ntok, t_fh, t_sz, cid; cbn [fin script results rg cur pc held fst snd].
+    rewrite Hh. repeat split; auto. apply li_at0; auto.
+Qed.
+
+Lemma shape_upds : forall ss s sm', shape ss ->
+    maxv sm' = maxv (nth s ss dsem) -> recur sm' = recur (nth s ss dsem) -> shape (upds ss s sm').
+Proof.
+  intros ss s sm' [H0 H14] Hm Hr. split.
+  - destruct (Nat.eq_dec s 0) as [E|E]; [subst; rewrite nth_upds_same; congruence|].
+    rewrite nth_upds_other by auto. auto.
+  - intros k Hk. destruct (Nat.eq_dec s k) as [E|E].
+    + subst. rewrite nth_upds_same. destruct (H14 k Hk). split; congruence.
+    + rewrite nth_upds_other by auto. auto.
+Qed.
+
+Lemma li_upd : forall (l : list thread) i t', (forall u, In u l -> LI u) -> LI t' ->
+    forall u, In u (upd l i t') -> LI u.
+Proof. intros l i t' Hl Ht u Hu. destruct (In_upd _ _ _ _ _ Hu); subst; auto. Qed.
+
+Ltac simp_in H :=
+  cbn [advance abort run_local nth_error code p_c_wait p_c_notify p_c_notify_all p_e_is_set p_e_set
+       p_e_clear p_e_wait p_u_acquire p_u_release p_ub_acquire p_ub_release p_ul_acquire p_ul_release
+       p_ur_acquire p_ur_release p_c_wait2 getr setr rvv flagv init_regs r0 r1 r2 r3 r4 r5 r6 r7
+       rg cur pc held script results fin cid fst snd negb andb orb FUEL] in H.
+Ltac simp :=
+  cbn [advance abort run_local nth_error code p_c_wait p_c_notify p_c_notify_all p_e_is_set p_e_set
+       p_e_clear p_e_wait p_u_acquire p_u_release p_ub_acquire p_ub_release p_ul_acquire p_ul_release
+       p_ur_acquire p_ur_release p_c_wait2 getr setr rvv flagv init_regs r0 r1 r2 r3 r4 r5 r6 r7
+       rg cur pc held script results fin cid fst snd negb andb orb FUEL].
+
+
+Opaque upds updz upd.
+
+Lemma inv_upd : forall g i t t' ss',
+    Inv g -> nth_error (thr g) i = Some t -> shape ss' -> LI t' ->
+    val (nth 0 ss' dsem) + (sumz t_hl (thr g) - t_hl t + t_hl t') = 1 ->
+    0 <= val (nth 0 ss' dsem) ->
+    val (nth 1 ss' dsem) - val (nth 2 ss' dsem) + (sumz t_pend (thr g) - t_pend t + t_pend t')
+      = sumz t_win (thr g) - t_win t + t_win t' ->
+    0 <= val (nth 1 ss' dsem) -> 0 <= val (nth 2 ss' dsem) ->
+    0 <= val (nth 3 ss' dsem) <= sumz t_ntok (thr g) - t_ntok t + t_ntok t' ->
+    (0 <= val (nth 4 ss' dsem) /\ val (nth 4 ss' dsem) + (sumz t_fh (thr g) - t_fh t + t_fh t') <= 1) ->
+    (0 < sumz t_sz (thr g) - t_sz t + t_sz t' -> val (nth 1 ss' dsem) = 0) ->
+    Inv (mkS ss' (upd (thr g) i t')).
+Proof.
+  intros g i t t' ss' HI Ht Hsh Hli H1 H2 H3 H4 H5 H6 H7 H8.
+  constructor; unfold vv; cbn [sems thr]; rewrite ?(sumz_upd _ _ _ _ _ _ Ht); auto.
+  apply li_upd; auto. apply (i_li g HI).
+Qed.
+
+Ltac simpw :=
+  cbn [t_hl t_win t_pend t_ntok t_fh t_sz w_hl w_win w_pend w_ntok w_fh w_sz
+       r0 r1 r2 r3 r4 r5 r6 r7 rg cur pc held script results fin cid fst snd val set_val maxv recur] in *.
+
+Ltac fin_if :=
+  repeat (simp; match goal with
+    | |- context [if ?b then _ else _] =>
+        first [ let v := eval vm_compute in b in
+                lazymatch v with true => change b with true | false => change b with false end
+              | destruct b eqn:? ]
+    end); simp.
+
+Ltac split_all := repeat match goal with H : _ /\ _ |- _ => destruct H end.
+
+
+Ltac destr_H H :=
+  repeat match type of H with
+         | context [if ?b then _ else _] => destruct b eqn:?
+         | context [match ?x with _ => _ end] => destruct x eqn:?
+         end.
+
+Ltac norm_held :=
+  rewrite ?nth_updz_same, ?nth_updz_other by discriminate;
+  repeat match goal with Hh : nth 0 ?h 0 = _ |- _ => rewrite ?Hh end.
+
+Ltac solve_start Hsc Hrs :=
+  match goal with
+  | |- Inv {| sems := ?ss; thr := upd _ _ (start code ?h' ?res' ?sc') |} =>
+      let SF := fresh "SF" in
+      assert (SF : LI (start code h' res' sc') /\ t_hl (start code h' res' sc') = 0 /\
+                   t_win (start code h' res' sc') = 0 /\ t_pend (start code h' res' sc') = 0 /\
+                   t_ntok (start code h' res' sc') = 0 /\ t_fh (start code h' res' sc') = 0 /\
+                   t_sz (start code h' res' sc') = 0);
+      [ apply start_facts;
+        [ exact Hsc
+        | first [ exact Hrs | constructor; [cbn [okres]; unfold V_NONE; repeat split; auto; try lia | exact Hrs] ]
+        | norm_held; try reflexivity; try lia ]
+      | destruct SF as (SF0 & SF1 & SF2 & SF3 & SF4 & SF5 & SF6) ]
+  end.
+
+Ltac finish_inv HI Ht :=
+  eapply (inv_upd _ _ _ _ _ HI Ht);
+  [ first [ exact (i_shape _ HI) | apply shape_upds; [exact (i_shape _ HI) | reflexivity | reflexivity] ]
+  | first [ assumption | unfold LI; simp; cbn [li_pc]; unfold res2; simp; norm_held; repeat split; auto; try lia ]
+  | .. ];
+  rewrite ?nth_upds_same, ?nth_upds_other by discriminate; simpw;
+  try match goal with SF1 : t_hl (start _ _ _ _) = 0 |- _ => idtac end;
+  repeat match goal with E : _ (start code _ _ _) = 0 |- _ => rewrite ?E; clear E end;
+  try lia.
+
+
+Lemma inv_step : forall g i go g' e, Inv g -> small g -> step code g i go = Some (g', e) -> Inv g'.
+Proof.
+  intros g i go g' e HI Hsm H.
+  unfold step in H.
+  destruct (nth_error (thr g) i) as [t|] eqn:Ht; [|discriminate].
+  destruct (fin t) eqn:Hf; [discriminate|].
+  pose proof (i_li g HI t (nth_error_In _ _ Ht)) as Hli.
+  destruct (i_shape g HI) as [HmL H14].
+  destruct (H14 1%nat ltac:(lia)) as [Hr1 Hm1]. destruct (H14 2%nat ltac:(lia)) as [Hr2 Hm2].
+  destruct (H14 3%nat ltac:(lia)) as [Hr3 Hm3]. destruct (H14 4%nat ltac:(lia)) as [Hr4 Hm4].
+  pose proof (i_lock g HI) as Ilock. pose proof (i_lock0 g HI) as Ilock0.
+  pose proof (i_count g HI) as Icount. pose proof (i_s0 g HI) as Is0. pose proof (i_w0 g HI) as Iw0.
+  pose proof (i_tok g HI) as Itok. pose proof (i_flag g HI) as Iflag. pose proof (i_sz g HI) as Isz.
+  destruct Hsm as (Hs1 & Hs2 & Hs3). unfold vv, SVM in *.
+  assert (Hge : t_hl t <= sumz t_hl (thr g)) by (eapply sumz_ge_elem; eauto; intros; apply t_hl_01).
+  assert (Hgw : t_win t <= sumz t_win (thr g)) by (eapply sumz_ge_elem; eauto; intros; apply t_win_01).
+  assert (Hgn : 0 <= sumz t_win (thr g)) by (apply sumz_nonneg; intros; apply t_win_01).
+  assert (Hgf : 0 <= sumz t_fh (thr g)) by (apply sumz_nonneg; intros; apply t_fh_01).
+  assert (Hgz : 0 <= sumz t_sz (thr g)) by (apply sumz_nonneg; intros; apply t_sz_01).
+  assert (Hex : 1 <= t_hl t -> sumz t_pend (thr g) = t_pend t /\ sumz t_ntok (thr g) = t_ntok t /\
+                               sumz t_fh (thr g) = t_fh t /\ sumz t_sz (thr g) = t_sz t).
+  { intros H1. repeat split; eapply (sumz_excl _ t_hl); eauto; try (intros; apply t_hl_01); try lia;
+      intros x Hx; apply (t_excl x Hx). }
+  assert (Hex0 : t_hl t <= 0 -> t_pend t = 0 /\ t_ntok t = 0 /\ t_fh t = 0 /\ t_sz t = 0) by apply t_excl.
+  destruct t as [[[c a0] a1] p [x0 x1 x2 x3 x4 x5 x6 x7] h sc rs f]. cbn [fin] in Hf; subst f.
+  unfold LI in Hli; cbn [fin script results rg cur pc held cid fst snd] in Hli.
+  destruct Hli as (Hsc & Hrs & Hr0 & Hpc).
+  unfold cid in H; cbn [cur fst pc rg held] in H.
+  dn c 15%nat; dn p 28%nat; cbn in Hpc; try contradiction.
+  all: simpw; unfold res2 in *; simpw; split_all.
+  all: first [ specialize (Hex ltac:(lia)); clear Hex0 | specialize (Hex0 ltac:(lia)); clear Hex ]; split_all.
+  all: simp_in H; unfold sem_acq, sem_rel in H;
+    rewrite ?Hr1, ?Hr2, ?Hr3, ?Hr4, ?Hm1, ?Hm2, ?Hm3, ?Hm4, ?HmL in H; cbn [andb] in H;
+    destr_H H; try discriminate.
+  all: try (exfalso; lia).
+  all: inversion H; subst g' e; clear H.
+  all: unfold advance, abort; simp; norm_held; fin_if.
+  all: try solve_start Hsc Hrs.
+  all: try solve [finish_inv HI Ht].
+Qed.
